@@ -23,6 +23,7 @@ struct SimFile {
   Hasher log;
   bool closed = false;
   int id = 0;
+  int errno_noise = 0; Prng enrng{7};   // successful reads leave a seeded errno value behind (its value after a successful call is unspecified)
   bool read_faults_only = false;   // stdio FILE in between (ov_open over fopencookie): glibc's own position cache is undefined after a failed seek, so only read faults are injected there
 
   void begin_op(const std::vector<IoFault> &f) { faults = f; op_cb = 0; }
@@ -67,7 +68,8 @@ struct SimFile {
     }
     if (size > 1) n -= n % size;
     if (n) memcpy(ptr, bytes->data() + pos, n);
-    pos += (int64_t)n;   // errno is left alone, as fread and memory readers leave it: a plain end of data is "0 bytes, errno untouched"
+    if (n && errno_noise && enrng.chance(0.4)) { static const int ev[] = {EINTR, EAGAIN, ENOTTY, EIO, ESPIPE}; errno = ev[enrng.below(5)]; g_stats.inc("io.read.data_with_errno_set"); }
+    pos += (int64_t)n;   // (otherwise) errno is left alone, as fread and memory readers leave it: a plain end of data is "0 bytes, errno untouched"
     { static const bool trace = getenv("VERIF_TRACE_IO") != nullptr; if (trace) fprintf(stderr, "IO read want=%zu got=%zu -> pos %lld\n", want, n, (long long)pos); }
     log.u64(1); log.u64(n); log.i64(pos);
     return size ? n / size : 0;
